@@ -75,7 +75,8 @@ def power(I, st, a, b):
             if b == Fraction(1, 2):
                 yield from sqrt(I, st, a)
                 return
-            raise Unsupported("fractional power of constants")
+            yield from rational_power(I, st, a, b)
+            return
         bb = int(b)
         try:
             r = Fraction(a) ** bb if (isinstance(a, Fraction) or bb < 0 or isinstance(b, Fraction)) else a**bb
@@ -90,7 +91,8 @@ def power(I, st, a, b):
         if b == Fraction(1, 2):
             yield from sqrt(I, st, a)
             return
-        raise Unsupported("fractional power")
+        yield from rational_power(I, st, a, b)
+        return
     n = int(b)
     isfloat = isinstance(b, Fraction) or is_reallike(a) or n < 0
     base = z3val(a)
@@ -110,6 +112,61 @@ def power(I, st, a, b):
                 yield st1, exc("ZeroDivisionError")
         return
     yield st, r
+
+
+def rational_power(I, st, a, b):
+    """a ** (p/q) for a concrete non-integer rational exponent p/q (q > 1, lowest terms) over the reals (A1):
+    a > 0: (root_q a) ** p where root_q a is THE positive real y with y**q == a (uninterpreted function + its defining
+    facts, like sqrt); a == 0: 0.0 for p > 0, ZeroDivisionError for p < 0 (as CPython); a < 0: CPython returns a
+    complex number - outside the model (Unsupported when that branch is feasible)."""
+    p, q = b.numerator, b.denominator
+    zx = z3val(as_arith(a))
+    if z3.is_int(zx):
+        zx = z3.ToReal(zx)
+    I.trust("root", "A1: x ** (p/q) for x > 0 is y**p with y the positive real q-th root of x (y > 0, y**q = x)")
+    for st1, neg_ in I.branch(st, zx < 0):
+        if neg_:
+            raise Unsupported("negative base ** fractional exponent (complex result)")
+        for st2, zero in I.branch(st1, zx == 0):
+            if zero:
+                yield st2, (Fraction(0) if p > 0 else exc("ZeroDivisionError", "0.0 cannot be raised to a negative power"))
+                continue
+            f = I.func("root%d" % q, z3.RealSort(), z3.RealSort())
+            y = f(zx)
+            yq = y
+            for _ in range(q - 1):
+                yq = yq * y
+            st2.pc.append(y > 0)
+            st2.pc.append(yq == zx)
+            r = y
+            for _ in range(abs(p) - 1):
+                r = r * y
+            yield st2, (r if p > 0 else 1 / r)
+
+
+def exp(I, st, x):
+    """math.exp(x) over the reals (A1) as an UNDER-SPECIFIED uninterpreted function: only facts true of the real
+    exponential are given (e(x) > 0, e(x) >= 1 + x, e(x) <= 1 for x <= 0, e(x) >= 1 for x >= 0, e(x)*e(-x) = 1 is NOT
+    given), so whatever is proved holds for the real exp.  CPython raises OverflowError above ~709.78: an argument that
+    may reach 709 is outside the model (Unsupported)."""
+    x = as_arith(x)
+    if not is_z3(x) and x == 0:
+        yield st, Fraction(1)
+        return
+    zx = z3val(x)
+    if z3.is_int(zx):
+        zx = z3.ToReal(zx)
+    I.trust("exp", "A1: math.exp is an uninterpreted real function with exp(x) > 0, exp(x) >= 1 + x, exp(x) <= 1 iff x <= 0 (sound facts only)")
+    for st1, big in I.branch(st, zx >= 709):
+        if big:
+            raise Unsupported("math.exp of an argument that may overflow a float (>= 709)")
+        f = I.func("exp", z3.RealSort(), z3.RealSort())
+        y = f(zx)
+        st1.pc.append(y > 0)
+        st1.pc.append(y >= 1 + zx)
+        st1.pc.append((y <= 1) == (zx <= 0))
+        st1.pc.append((y == 1) == (zx == 0))
+        yield st1, y
 
 
 def sqrt(I, st, x):
